@@ -37,6 +37,11 @@ func (g *Gen) ret(x *ssa.Return, st *State) {
 	for _, r := range x.Results {
 		res = append(res, g.val(r))
 	}
+	if g.inl != nil {
+		// a return of a helper executed in place of its call: the caller continues from here
+		g.inl.exits = append(g.inl.exits, exitPoint{st.clone(), res})
+		return
+	}
 	g.exits = append(g.exits, exitPoint{st.clone(), res})
 	if g.c == nil {
 		return
@@ -195,6 +200,9 @@ func (g *Gen) call(x ssa.Value, cc *ssa.CallCommon, st *State) {
 			// callees of this module are verified against the guarantee step by step themselves
 			ctc := g.calleeContract(cc)
 			own := ctc != nil && !ctc.Extern && !ctc.Trusted
+			if hf, ok := cc.Value.(*ssa.Function); ok && ctc == nil && g.inlinable(hf) {
+				own = true // executed in place: each of its steps was checked where it happened
+			}
 			if !own && g.touchesShared(st, prev) {
 				g.checkGuar(prev, st, fmt.Sprintf("call:%s#%d", calleeName(cc), g.callOrd[calleeName(cc)]), cc.Pos())
 			}
@@ -326,6 +334,13 @@ func (g *Gen) callInner(x ssa.Value, cc *ssa.CallCommon, st *State) {
 			}
 		}
 	}
+	if ct == nil && g.inlinable(callee) {
+		if _, isClo := cc.Value.(*ssa.MakeClosure); !isClo {
+			g.warnings = append(g.warnings, fmt.Sprintf("call of %s has no contract: its body is executed in place", cname))
+			g.inlineCall(x, callee, args, st)
+			return
+		}
+	}
 	if ct == nil {
 		g.warnings = append(g.warnings, fmt.Sprintf("call of %s has no contract: all state havocked, result unconstrained", cname))
 		g.usedExt["(no contract) "+cname] = true
@@ -402,7 +417,10 @@ func (g *Gen) callInner(x ssa.Value, cc *ssa.CallCommon, st *State) {
 		func() {
 			defer func() {
 				if r := recover(); r != nil {
-					if _, ok := r.(specErr); ok {
+					if se, ok := r.(specErr); ok {
+						if ct.Extern {
+							g.warnings = append(g.warnings, fmt.Sprintf("a postcondition of %s could not be evaluated at this call and was dropped: %s", cname, se.msg))
+						}
 						return
 					}
 					panic(r)
